@@ -2,7 +2,7 @@
    Statements only; proofs in proof/RelayClient_lemmas.v; model in model/RelayClient.v
    (the code after fixes d7, d14, d15, d18, d20, d28, d29 and the reply-line fix). *)
 From Coq Require Import List NArith Bool.
-From SV Require Import lib.Bytes model.RelayClient proof.RelayClient_lemmas.
+From SV Require Import lib.Bytes gen.UnicodeTables model.RelayClient proof.RelayClient_lemmas.
 Import ListNotations.
 Open Scope N_scope.
 
@@ -259,3 +259,25 @@ Theorem C11_mx_error_not_cached : forall steps st d,
   (asked = false -> o = mx_finish r (s_attempts st) /\ exists dst, o = MxRelay dst).
 Proof. exact mx_error_not_cached. Qed.
 Print Assumptions C11_mx_error_not_cached.
+
+(* ---------------- reply codes: only the class of the code counts ---------------- *)
+(* every well-formed reply code n is read as the outcome of its class (500 kept apart only because
+   EHLO compares it literally); all theorems above quantify over every script stage -> outcome, hence
+   over every assignment of codes: an error reply is permanent iff its code is 5xx *)
+Theorem C11_classification_by_class_of_code : forall n c,
+  read_reply (outcome_of_code n) = inl c ->
+  (is_error c = true <-> 400 <= n <= 599) /\
+  (factory c = Perm <-> 500 <= n <= 599) /\
+  (is_error c = true -> factory c = Trans <-> 400 <= n <= 499).
+Proof. exact class_of_code_only. Qed.
+Print Assumptions C11_classification_by_class_of_code.
+
+(* PipeRelay: a permanent failure only if the program output (stdout, else stderr, right-stripped)
+   BEGINS with "5." digit ...; what later lines look like never matters *)
+Theorem C11_pipe_permanent_begins_with_5 : forall st so se,
+  raise_error KPipe st so se = Perm ->
+  let so' := rstrip_b so in let se' := rstrip_b se in
+  let msg := match so' with [] => (match se' with [] => default_msg | _ => se' end) | _ => so' end in
+  exists d rest, u8r msg = 53 :: 46 :: d :: rest /\ udigit d = true.
+Proof. exact pipe_permanent_begins_with_5. Qed.
+Print Assumptions C11_pipe_permanent_begins_with_5.
